@@ -42,15 +42,19 @@ WEIGHTS = ("Delta00", "Delta02", "Delta20", "Delta11")
 # implementation-side helpers
 
 MASSES = ("profile", "constant", "light", "massless", "halfwall")
+# the harness's OWN record of what it put into the Particle / background objects
+COUP = [0.5, 0.11, 0.9, 0.3, 0.7]
+COUP2 = [0.0, 0.4, 0.25, 0.0, 0.6]
+DOFS = [12, 9, 3, 6, 2]
 
 
 def make_particles(nspecies, nfields=1):
     """species k has m^2 = g_k phi_0^2 (+ h_k phi_1^2 when the model has two fields): exactly
     massless wherever the fields vanish (symmetric side of a wall)"""
     import WallGo
-    coup = [0.5, 0.11, 0.9, 0.3, 0.7][:nspecies]
-    coup2 = [0.0, 0.4, 0.25, 0.0, 0.6][:nspecies]
-    dofs = [12, 9, 3, 6, 2][:nspecies]
+    coup = COUP[:nspecies]
+    coup2 = COUP2[:nspecies]
+    dofs = DOFS[:nspecies]
     out = []
     for k, (g, h, d) in enumerate(zip(coup, coup2, dofs)):
         if nfields == 1:
@@ -82,10 +86,25 @@ def make_background(M, mass, nfields=1, vshift=0.0):
         field = 60.0 * (1 + np.tanh(x)) + 1.0
     cols = [field] if nfields == 1 else [field, 0.5 * field[::-1] if mass not in (
         "massless", "halfwall") else 0.5 * field]
-    return WallGo.BoltzmannBackground(
+    bg = WallGo.BoltzmannBackground(
         velocityMid=0.5 * (v[0] + v[-1]), velocityProfile=v,
         fieldProfiles=WallGo.Fields(np.array(cols).T),
         temperatureProfile=100 * np.ones(M + 1))
+    # private copy of the profile: every oracle uses THIS, never the object handed to WallGo
+    bg.c13_fields = np.array(cols).T.copy()
+    return bg
+
+
+def own_msq(bg, nspecies):
+    """m^2 of species k at every z node (end points included), from the private copy"""
+    f = bg.c13_fields
+    out = []
+    for k in range(nspecies):
+        m = COUP[k] * f[:, 0] ** 2
+        if f.shape[1] > 1:
+            m = m + COUP2[k] * f[:, 1] ** 2
+        out.append(m)
+    return np.array(out)
 
 
 G3_DEFAULT = (2.5, 3.0, 1.0, 0.0)       # tailIn, tailOut, wallThickness, wallCenter
@@ -237,7 +256,20 @@ def physical(ctx, grid, particles, bg, case=None):
                     T, float(mine[bad]) if bad >= 0 else None),
                 dict(kind="grid-arrays", case=case, which=nm),
                 key="grid-momentum-arrays:%s:%s" % (type(grid).__name__, nm))
-    msq = np.array([p.msqVacuum(bg.fieldProfiles) for p in particles])[:, 1:-1, None, None]
+    import WallGo
+    msq_full = own_msq(bg, len(particles))
+    msq = msq_full[:, 1:-1, None, None]
+    theirs = np.array([np.asarray(p.msqVacuum(WallGo.Fields(bg.c13_fields.copy())), dtype=float)
+                       for p in particles])
+    dofs_theirs = [p.totalDOFs for p in particles]
+    ctx.count("particle_data")
+    if theirs.shape != msq_full.shape or not np.allclose(theirs, msq_full, rtol=8 * EPS,
+                                                         atol=0) or \
+            dofs_theirs != DOFS[:len(particles)]:
+        ctx.fail_input("Particle objects do not return the masses / degrees of freedom they "
+                       "were built with (dofs %s vs %s)" % (dofs_theirs, DOFS[:len(particles)]),
+                       dict(kind="grid-arrays", case=case, which="particles"),
+                       key="particle-data")
     pz4 = pz[None, None, :, None]
     pp4 = pp[None, None, None, :]
     energy = np.sqrt(msq + pz4 ** 2 + pp4 ** 2)
@@ -248,7 +280,8 @@ def physical(ctx, grid, particles, bg, case=None):
     ws = dict(Delta00=np.ones_like(energy), Delta02=pz4 ** 2 * np.ones_like(energy),
               Delta20=energy ** 2, Delta11=energy * pz4)
     return types.SimpleNamespace(chi=chi, rz=rz, rp=rp, pz4=pz4, pp4=pp4, energy=energy,
-                                 msq=msq, meas=meas, ws=ws, T=T)
+                                 msq=msq, meas=meas, ws=ws, T=T, msq_full=msq_full,
+                                 dofs=np.array(DOFS[:len(particles)], dtype=float))
 
 
 def abs_bound(nodal_abs_or_coeffs, grid, basisM, basisN, is_coeffs):
@@ -327,7 +360,12 @@ def check_exact(ctx, cfg):
         B = rand_poly(rng, max(0, min(cfg["degB"], 2 * (N - 1) - 3)))
         A[0] += 6.0
         B[0] += 6.0
-    gz = (lambda chi: (1 - chi ** 2) * (1 + 0.5 * chi))
+        if cfg.get("sign", 1) < 0:          # closed forms of either sign
+            A = [-a_ for a_ in A]
+    if cfg.get("gzkind", 0):
+        gz = (lambda chi: (1 - chi ** 2) * (0.5 * chi - 0.2))     # changes sign across z
+    else:
+        gz = (lambda chi: (1 - chi ** 2) * (1 + 0.5 * chi))
     case = dict(cfg, A=A, B=B)
     label = cfg_label(cfg)
     ok = True
@@ -353,18 +391,20 @@ def check_exact(ctx, cfg):
             ctx.count("exact_class", dict(case, step=step, name=name),
                       bucket="%s/%s/%s/N=%d/%s" % (cfg["basisM"][:4], cfg["basisN"][:4],
                                                     cfg["mass"], N, tag))
-            if not (np.array_equal(handed, deltaF) and res.deltaF is deltaF):
+            if not (np.array_equal(handed, deltaF) and
+                    np.array_equal(np.asarray(res.deltaF), handed)):
                 ok = False
-                ctx.fail_input("getDeltas changed / replaced the caller's deltaF [%s]" % label,
+                ctx.fail_input("getDeltas changed the caller's deltaF / returns another "
+                               "deltaF than it was given [%s]" % label,
                                dict(kind="exact", case=case, step=step, name=name),
                                key="deltaF-not-passed-through")
             # the oracle is the closed form; the (tiny) error made by MY conversion of the
             # nodal values into spectral coefficients is accounted for exactly
             mw = ph.meas * ph.ws[name]
-            rep_err = from_solver_repr(deltaF, grid, cfg["basisM"], cfg["basisN"]) - devs[name]
+            rep_err = from_solver_repr(handed, grid, cfg["basisM"], cfg["basisN"]) - devs[name]
             want = closed[None, :] + np.sum(mw * rep_err, axis=(2, 3))
             spectral = "Chebyshev" in (cfg["basisM"], cfg["basisN"])
-            bound = abs_bound(deltaF if spectral else devs[name], grid, cfg["basisM"],
+            bound = abs_bound(handed if spectral else devs[name], grid, cfg["basisM"],
                               cfg["basisN"], spectral)
             tol = c_round(grid) * EPS * np.sum(np.abs(mw) * bound, axis=(2, 3))
             excess = np.abs(got - want) / tol
@@ -395,8 +435,8 @@ def check_exact(ctx, cfg):
                     dict(kind="not-nodal", case=case, step=step, name=name),
                     key="deltas-not-nodal:%s" % cfg["basisM"])
             if fresh is not None:
-                y = np.asarray(getattr(fresh.getDeltas(deltaF).Deltas, name).coefficients,
-                               dtype=float)
+                y = np.asarray(getattr(fresh.getDeltas(handed.copy()).Deltas,
+                                       name).coefficients, dtype=float)
                 ctx.count("rescaled_vs_fresh")
                 if not np.all(np.abs(raw - y) <= tol):
                     ok = False
@@ -479,9 +519,25 @@ def check_generic(ctx, cfg):
         return good
     cf_f = to_solver_repr(f, grid, cfg["basisM"], cfg["basisN"])
     cf_g = to_solver_repr(g, grid, cfg["basisM"], cfg["basisN"])
+    # every oracle below is computed from copies frozen BEFORE WallGo sees the arrays
+    frozen_f, frozen_g = cf_f.copy(), cf_g.copy()
+    f_rt = from_solver_repr(frozen_f, grid, cfg["basisM"], cfg["basisN"])
+    g_rt = from_solver_repr(frozen_g, grid, cfg["basisM"], cfg["basisN"])
     Rf, Rg = solver.getDeltas(cf_f), solver.getDeltas(cf_g)
-    Rh = solver.getDeltas(a * cf_f + b * cf_g)
-    f_rt = from_solver_repr(cf_f, grid, cfg["basisM"], cfg["basisN"])
+    Rh = solver.getDeltas(a * frozen_f + b * frozen_g)
+
+    def passed_through(where):
+        if np.array_equal(cf_f, frozen_f) and np.array_equal(cf_g, frozen_g) and \
+                np.array_equal(np.asarray(Rf.deltaF), frozen_f):
+            return True
+        ctx.fail_input("getDeltas changed the caller's deltaF / returns another deltaF than "
+                       "it was given (%s) [%s]" % (where, label),
+                       dict(kind="generic", case=case, name="deltaF", what=where),
+                       key="deltaF-not-passed-through")
+        cf_f[...] = frozen_f
+        cf_g[...] = frozen_g
+        return False
+    ok &= passed_through("first calls")
     ok &= compare(Rf, f_rt, ph, "first background", "")
     # ---- linearity, directly and through the results arithmetic ---------------------------
     Rc = a * Rf + b * Rg                     # BoltzmannResults.__rmul__/__add__
@@ -490,7 +546,7 @@ def check_generic(ctx, cfg):
         xf, xg, xh, xc, xc2 = (np.asarray(getattr(R.Deltas, name).coefficients, dtype=float)
                                for R in (Rf, Rg, Rh, Rc, Rc2))
         _, tf = tol_for(f_rt, name, ph)
-        _, tg = tol_for(from_solver_repr(cf_g, grid, cfg["basisM"], cfg["basisN"]), name, ph)
+        _, tg = tol_for(g_rt, name, ph)
         tol = 2 * (abs(a) * tf + abs(b) * tg)
         ctx.count("linearity")
         for what, lhs in (("getDeltas(a f + b g)", xh), ("(a R_f + b R_g).Deltas", xc),
@@ -532,6 +588,30 @@ def check_generic(ctx, cfg):
     R2 = solver.getDeltas(cf_f)
     ok &= compare(R2, f_rt, ph2, "second background (%s) on the same solver" % other_mass,
                   ":rebackground")
+    # the installed background is the solver's OWN copy: editing the caller's object in place
+    # afterwards (Fields.setField, re-used buffers) must not reach the moments
+    ctx.count("background_aliasing")
+    shared = [nm for nm in ("fieldProfiles", "velocityProfile", "temperatureProfile")
+              if np.shares_memory(np.asarray(getattr(solver.background, nm)),
+                                  np.asarray(getattr(bg2, nm)))]
+    bg2.fieldProfiles[...] = 7.0 + np.arange(bg2.fieldProfiles.shape[0])[:, None]
+    np.asarray(bg2.velocityProfile)[...] = -0.2
+    np.asarray(bg2.temperatureProfile)[...] = 55.0
+    R2b = solver.getDeltas(cf_f)
+    same = all(np.array_equal(getattr(R2b.Deltas, nm).coefficients,
+                              getattr(R2.Deltas, nm).coefficients) for nm in WEIGHTS)
+    if shared or not same:
+        ok = False
+        x2 = float(np.ravel(R2.Deltas.Delta20.coefficients)[0])
+        x2b = float(np.ravel(R2b.Deltas.Delta20.coefficients)[0])
+        ctx.fail_input(
+            "the background installed by setBackground shares memory with the caller's "
+            "object (%s): after editing the caller's profiles in place Delta20[0,0] went "
+            "from %.12g to %.12g [%s]" % (shared or "no array reported by shares_memory", x2,
+                                         x2b, label),
+            dict(kind="generic", case=case, name="Delta20", what="aliasing"),
+            key="background-aliased")
+    ok &= passed_through("second background")
     solver.setBackground(bg)
     R3 = solver.getDeltas(cf_f)
     for name in WEIGHTS:
@@ -548,7 +628,7 @@ def check_generic(ctx, cfg):
     eom = real_eom(solver)
     p0 = u0 * ph.energy + u3 * ph.pz4
     p3 = u3 * ph.energy + u0 * ph.pz4
-    dofs = np.array([p.totalDOFs for p in particles])[:, None]
+    dofs = ph.dofs[:, None]
     for which, R, nodal, coef in (("getDeltas(f)", Rf, f_rt, 1.0),
                                   ("a R_f + b R_g", Rc, None, None)):
         if nodal is None:
@@ -556,9 +636,9 @@ def check_generic(ctx, cfg):
         bound = abs_bound(to_solver_repr(nodal, grid, cfg["basisM"], cfg["basisN"])
                           if spectral else nodal, grid, cfg["basisM"], cfg["basisN"], spectral)
         if which != "getDeltas(f)":
-            bound = abs(a) * abs_bound(cf_f if spectral else f_rt, grid, cfg["basisM"],
+            bound = abs(a) * abs_bound(frozen_f if spectral else f_rt, grid, cfg["basisM"],
                                        cfg["basisN"], spectral) + \
-                abs(b) * abs_bound(cf_g if spectral else g, grid, cfg["basisM"],
+                abs(b) * abs_bound(frozen_g if spectral else g_rt, grid, cfg["basisM"],
                                    cfg["basisN"], spectral)
         T30ref = np.sum(dofs * np.sum(ph.meas * p3 * p0 * nodal, axis=(2, 3)), axis=0)
         T33ref = np.sum(dofs * np.sum(ph.meas * p3 * p3 * nodal, axis=(2, 3)), axis=0)
@@ -568,13 +648,15 @@ def check_generic(ctx, cfg):
             np.abs(ph.meas) * (ph.energy ** 2 + ph.pz4 ** 2 + ph.msq) * bound,
             axis=(2, 3)), axis=0)
         for index in range(M - 1):
-            for src, fp in (("own", bg.fieldProfiles.getFieldPoint(index + 1)),
-                            ("other", bg2.fieldProfiles.getFieldPoint(
+            for src, fp in (("own", WallGo.Fields(bg.c13_fields.copy()).getFieldPoint(
+                                index + 1)),
+                            ("other", WallGo.Fields(bg2.c13_fields.copy()).getFieldPoint(
                                 (index + 2) % (M + 1)))):
                 T30, T33 = eom.deltaToTmunu(index, fp, vMid, R.Deltas)
                 T30, T33 = float(np.ravel(T30)[0]), float(np.ravel(T33)[0])
                 ctx.count("tmunu", dict(case, index=index, src=src, which=which))
-                msq_call = np.array([float(np.ravel(p.msqVacuum(fp))[0]) for p in particles])
+                msq_call = (ph.msq_full[:, index + 1] if src == "own" else
+                            ph2.msq_full[:, (index + 2) % (M + 1)])
                 extra = amp * c_round(grid) * EPS * float(np.sum(
                     dofs[:, 0] * msq_call * np.sum(np.abs(ph.meas) * bound,
                                                    axis=(2, 3))[:, index]))
@@ -610,14 +692,24 @@ def check_implicit(ctx, cfg):
     res = solver.getDeltas()
     ctx.count("implicit_deltaF", case, bucket=der[:8])
     if not np.all(np.isfinite(res.deltaF)):
-        ctx.log("implicit path: solveBoltzmannEquations returned non-finite deltaF", label)
-        return True
-    nodal = from_solver_repr(res.deltaF, grid, cfg["basisM"], cfg["basisN"])
+        # judged, not skipped: no generated configuration is singular on the unchanged tree
+        ctx.fail_input("getDeltas() [no argument] returned a non-finite deltaF [%s]" % label,
+                       dict(kind="implicit", case=case, name="deltaF"),
+                       key="implicit-non-finite")
+        return False
+    handed = np.array(res.deltaF, dtype=float, copy=True)
+    nodal = from_solver_repr(handed, grid, cfg["basisM"], cfg["basisN"])
     spectral = "Chebyshev" in (cfg["basisM"], cfg["basisN"])
-    bound = abs_bound(res.deltaF if spectral else nodal, grid, cfg["basisM"], cfg["basisN"],
+    bound = abs_bound(handed if spectral else nodal, grid, cfg["basisM"], cfg["basisN"],
                       spectral)
     again = solver.getDeltas(res.deltaF)
     ok = True
+    if not (np.array_equal(np.asarray(res.deltaF), handed) and
+            np.array_equal(np.asarray(again.deltaF), handed)):
+        ok = False
+        ctx.fail_input("getDeltas changed the deltaF it was given [%s]" % label,
+                       dict(kind="implicit", case=case, name="deltaF"),
+                       key="deltaF-not-passed-through")
     for name in WEIGHTS:
         x = np.asarray(getattr(res.Deltas, name).coefficients, dtype=float)
         direct = np.sum(ph.meas * ph.ws[name] * nodal, axis=(2, 3))
@@ -632,6 +724,71 @@ def check_implicit(ctx, cfg):
                 dict(kind="implicit", case=case, name=name),
                 key="implicit-moment-not-sum:%s" % cfg["basisM"])
     return ok
+
+
+PSPACE_LIMITS = {   # relative error allowed (measured on the unchanged tree: 6-10x smaller)
+    "massive": {11: 1e-3, 21: 1e-5, 35: 3e-7},
+    "massless": {11: 0.1, 21: 1e-2, 35: 2e-3}}   # 1/E cusp at p = 0: algebraic convergence
+
+
+def check_pspace(ctx, T0s):
+    """the clause 'momentum-space integral', measured: for a smooth deviation that is NOT in
+    the exactness class, getDeltas converges (N = 11, 21, 35) to the integral over (pz, pp)
+    of pp/(4 pi^2 E) * weight * deltaF computed by adaptive cubature in MOMENTUM space (no
+    compact coordinates, no Jacobians of ours)"""
+    import WallGo
+    from scipy.integrate import dblquad
+    M = 3
+    for T0 in T0s:
+        phi = np.array([0.0, 0.0, 1.2 * T0, 1.2 * T0])
+
+        def df(pz, pp, msq):
+            E = np.sqrt(msq + pz ** 2 + pp ** 2)
+            return np.exp(-4 * E / T0) * (1 + 0.3 * pz / T0) * (pp / T0) ** 2
+        msqs = COUP[0] * phi[1:-1] ** 2
+        wfun = dict(Delta00=lambda E, pz: 1.0, Delta02=lambda E, pz: pz ** 2,
+                    Delta20=lambda E, pz: E ** 2, Delta11=lambda E, pz: E * pz)
+        ref = {}
+        for iz, m in enumerate(msqs):
+            for name, w in wfun.items():
+                def integrand(pp_, pz_, m=m, w=w):
+                    E = np.sqrt(m + pz_ ** 2 + pp_ ** 2)
+                    return pp_ / (4 * np.pi ** 2 * E) * w(E, pz_) * df(pz_, pp_, m)
+                ref[(iz, name)] = dblquad(integrand, -60 * T0, 60 * T0, 0, 60 * T0,
+                                          epsabs=0, epsrel=1e-10)[0]
+        prev = {}
+        for N in (11, 21, 35):
+            grid = WallGo.Grid3Scales(M, N, 2.5, 3.0, 1.0, T0, 0.5)
+            particles = make_particles(1)
+            bg = WallGo.BoltzmannBackground(
+                velocityMid=-0.5, velocityProfile=-0.5 * np.ones(M + 1),
+                fieldProfiles=WallGo.Fields(phi[:, None].copy()),
+                temperatureProfile=T0 * np.ones(M + 1))
+            solver = make_solver(grid, particles, bg, "Cardinal", "Cardinal")
+            pz, pp, _, _ = own_maps(T0, *grid.getCompactCoordinates()[1:])
+            dF = np.array([[df(pz[:, None], pp[None, :], m) for m in msqs]])
+            D = solver.getDeltas(dF).Deltas
+            for iz, m in enumerate(msqs):
+                kind = "massless" if m == 0 else "massive"
+                for name in WEIGHTS:
+                    got = float(getattr(D, name).coefficients[0, iz])
+                    err = abs(got / ref[(iz, name)] - 1)
+                    ctx.count("pspace_convergence", dict(T0=T0, N=N, kind=kind, name=name),
+                              bucket="%s/N=%d" % (kind, N))
+                    lim = PSPACE_LIMITS[kind][N]
+                    worse = (iz, name) in prev and err > 0.5 * prev[(iz, name)] and \
+                        err > 1e-9
+                    if not err <= lim or worse:
+                        ctx.fail_input(
+                            "%s (%s species, T0=%g, N=%d) = %.10g but the momentum-space "
+                            "integral is %.10g: relative error %.2e (allowed %.0e%s)" % (
+                                name, kind, T0, N, got, ref[(iz, name)], err, lim,
+                                "; not converging: N=%d gave %.2e" % (
+                                    {21: 11, 35: 21}.get(N, N), prev.get((iz, name), 0))
+                                if worse else ""),
+                            dict(kind="pspace", T0=T0, N=N, name=name, got=got,
+                                 want=ref[(iz, name)]), key="pspace-integral:%s" % kind)
+                    prev[(iz, name)] = err
 
 
 def check_U_orthogonality(ctx, jmax):
@@ -725,6 +882,7 @@ def eval_case(ctx, idx, N, ops, coeffs, fieldval, kind="Grid"):
         velocityMid=float(v[0]), velocityProfile=v,
         fieldProfiles=WallGo.Fields(np.full((M + 1, 1), float(fieldval))),
         temperatureProfile=100 * np.ones(M + 1))
+    bg.c13_fields = np.full((M + 1, 1), float(fieldval))
     L0, T0 = ops[0][1], ops[0][2]
     if kind == "Grid3Scales":
         grid = WallGo.Grid3Scales(M, N, 2.5 + 3 * float(L0), 3.0 + 3 * float(L0), float(L0),
@@ -873,9 +1031,12 @@ def fit(cfg, Ms):
 
 
 def configs(ctx):
-    """Configurations of the direct validation.  The factors (basisN, history, degrees, mass,
-    grid class, solver re-use) cycle with co-prime periods so that none is aliased with
-    another; quick covers every pair (basisM, basisN) with and without a history."""
+    """Configurations of the direct validation.  For check_exact the factors (bases, history,
+    degrees, sign of the closed form, mass, grid class, solver re-use) cycle with co-prime
+    offsets; quick covers every pair (basisM, basisN) with and without a history.
+    check_generic runs in quick on half of them: the pairs (Cardinal, *) for every other N and
+    (Chebyshev, *) for the others (so the pair (Cardinal, Chebyshev) that manager.py hard-codes
+    is exercised), in thorough on all.  SIZE_CAP bounds species*(M-1)*(N-1)^2 in both tiers."""
     rng = ctx.rng
     out = []
     Ns = [3, 5, 7, 11] if ctx.quick else [3, 5, 7, 9, 11, 13, 15, 17, 19, 21, 23, 25]
@@ -899,7 +1060,10 @@ def configs(ctx):
                                 M=Ms[(bb + 3 * iN) % len(Ms)], N=N, scales=[T1], hist=hist,
                                 basisM=basisM, basisN=basisN,
                                 mass=MASSES[(bb + 2 * iN) % len(MASSES)],
-                                nfields=1 + ((bb + 3 * iN) % 4 == 3),
+                                nfields=1 + ((bb + iN) % 4 in (0, 3)),
+                                sign=-1 if (bb + iN) % 3 == 1 else 1,
+                                gzkind=(bb + 2 * iN + iN // 2) % 2,
+                                generic=(bb in (0, 1)) == (iN % 2 == 0),
                                 species=1 + (bb + 2 * iN) % 3,
                                 rebackground=((7 * k) % 5 in (1, 3)),
                                 degA=2 * N - 3 if (bb // 2 + iN) % 2 == 0 else 2,
@@ -925,6 +1089,7 @@ def configs(ctx):
                             basisN=rng.choice(["Cardinal", "Chebyshev"]),
                             mass=rng.choice(MASSES), nfields=rng.choice([1, 1, 2]),
                             species=rng.randint(1, 5), rebackground=rng.random() < 0.5,
+                            sign=rng.choice([1, -1]), gzkind=rng.randint(0, 1),
                             degA=rng.randint(0, 2 * N - 3),
                             degB=rng.randint(0, max(0, 2 * (N - 1) - 3)),
                             v=rng.choice([-0.9, -0.55, 0.1, 0.6, 0.95])), Ms))
@@ -1011,7 +1176,7 @@ def run(ctx):
     for k, cfg in enumerate(cfgs):
         try:
             check_exact(ctx, cfg)
-            if not ctx.quick or k % 2 == 0 or cfg.get("derivatives"):
+            if not ctx.quick or cfg.get("generic") or cfg.get("derivatives"):
                 check_generic(ctx, cfg)
         except Exception as ex:
             ctx.log("direct validation raised", json.dumps(cfg), traceback.format_exc())
@@ -1026,6 +1191,12 @@ def run(ctx):
             ctx.log("implicit path raised", json.dumps(cfg), traceback.format_exc())
             ctx.fail_input("getDeltas() raised %r [%s]" % (ex, cfg_label(cfg)),
                            dict(kind="raise", case=dict(cfg, implicit=True)), key="raises")
+    try:
+        check_pspace(ctx, [100.0] if ctx.quick else [100.0, 37.0])
+    except Exception as ex:
+        ctx.log("momentum-space family raised", traceback.format_exc())
+        ctx.fail_input("getDeltas raised %r in the momentum-space family" % ex,
+                       dict(kind="pspace"), key="raises")
     check_gcl(ctx, [3, 5, 7, 9, 11] if ctx.quick else list(range(3, 27, 2)))
     check_U_orthogonality(ctx, 20 if ctx.quick else 48)
     # ---- collect the certified evaluations ---------------------------------------------
@@ -1088,6 +1259,8 @@ def replay(rep):
                 check_generic(ctx, case)
         except Exception as ex:                       # the recorded failure was a raise
             fail("raised %r" % ex, None)
+    elif rep.get("kind") == "pspace":
+        check_pspace(ctx, [rep.get("T0", 100.0)])
     elif rep.get("kind") == "gcl":
         check_gcl(ctx, [rep["N"]])
     print("replay: %d failing evaluations on the current tree" % len(fails))
